@@ -323,6 +323,7 @@ func TestC34(t *testing.T) {
 	gen := func(yield func(vt.Case)) {
 		yield(vt.Case{"kind": "flags", "origin": "source"})
 		wiringCases(rnd, src, wir, vt.Pick(60, 600), yield)
+		gwlagCases(rnd, src, wir, vt.Pick(36, 400), yield)
 		if bin != "" {
 			yield(vt.Case{"kind": "flags", "origin": "binary"})
 			yield(vt.Case{"kind": "probe", "ageH": 20})
@@ -379,6 +380,8 @@ func TestC34(t *testing.T) {
 			return ev
 		case "wiring":
 			return runWiringCase(c, src, wir)
+		case "gwlag":
+			return runGwLagCase(t, c, src, wir, scratch)
 		default:
 			return runFilterCase(c, src)
 		}
